@@ -73,6 +73,14 @@ CLAIMED = {
             "runtime monitor: Pick/Embed/Hash on 22 groups with benign and adversarial streams, independent math/big membership models + q*P=O, replay of drawn bytes, Embed/Data losslessness, RFC 9380 vectors and a math/big model of edwards25519_XMD:SHA-512_ELL2_RO_",
             "Every produced point is checked for membership by a model sharing no code with kyber and is then used; determinism by replaying exactly the drawn bytes on fresh and used receivers; Data() returns the stored bytes after encode/decode and Clone, and fails for out-of-range length fields; the three BLS12-381 back-ends agree.",
             "math/big curve models; RFC 9380 appendix vectors embedded as data."),
+    "C08": ("exploration",
+            "runtime monitor: honest sign/verify + structured mutation corpus (bit flips, S+kq, torsion shifts, small-order and non-canonical encodings, crafted equation-valid forgeries) on 19 groups, crypto/ed25519 as reference signer and second verifier, math/big Ed25519 model for the canonicity/small-order predicates, ring signatures over 5 suites with tag-linkage relations",
+            "Schnorr/EdDSA/ring signatures must verify when honest and fail for every semantically different message, key, ring, scope or signature field; on Ed25519 non-canonical R/S/A and small-order R/A must be rejected, EdDSA keys and signatures must be byte-identical to crypto/ed25519 and kyber-accept implies std-accept; linkage tags equal x*H(scope).",
+            "crypto/ed25519; the math/big Ed25519 model classifies which mutations are semantic changes."),
+    "C14": ("exploration",
+            "runtime monitor: random Or-of-And-of-Rep predicate trees proved through HashProve/HashVerify and through the deniable clique protocol (harness Context, k=2..5, -race in thorough); ground-truth evaluation of the claimed branch in the group; differential reference verifier on group operations for transcript mutations; witness-free forgers",
+            "Acceptance must coincide with the truth of the claimed branch for every branch choice and every single-secret falsification; each transcript field mutation/truncation is judged by a reference verifier; proofs are checked against other points, predicates and protocol names; forgers with simulated branches, guessed or transplanted challenges must be rejected.",
+            "soundness is judged on explicit cheating-prover families; Ed25519, P-256 and BN256 G1."),
 }
 
 PENDING = {}
